@@ -25,7 +25,9 @@
     * `CalculateSPost`: the length block, `S ⊕ E(J0)`, truncation to `tagSize`;
     * `openAsm`: GHASH over the ciphertext (`CalculateSMid`), `constantTimeCompare` on exactly `tagSize`
       bytes (OR of the byte-wise XORs), decryption only on a match; the Go wrapper's
-      `len(ciphertext) < tagSize → errOpen`.
+      `len(ciphertext) < tagSize → errOpen`;
+    * `sealGlue`: Seal of the arm64 Go glue, which encrypts first and hashes afterwards with `gHashUpdate`
+      (its Open has the order of `openAsm`, i.e. `open` below).
 
   Not modelled: buffer management (`ensureCapacity`, property C10/C11), the wrappers' panics on a wrong
   nonce length and their guard `len > (2^32-2)·16 (+tagSize)` (64 GiB; SP 800-38D's own bound, which
@@ -203,6 +205,19 @@ def «seal» (E : Bytes → Bytes) (t : Nat) (nonce pt aad : Bytes) : Bytes :=
   let tmask := E (natToBlock j0)
   let y := ghUpdate hp 0 aad
   let (c, y) := cryptoBlocks E hp true j0 y pt
+  c ++ finishTag hp y tmask aad.length pt.length t
+
+/-- `Seal` of the kernel-plus-Go-glue path (sm4_gcm_arm64.go): the same pieces in another order.  The whole
+    message is encrypted first (`cryptoBlocks`, same length classes, no hashing), then `gHashUpdate` runs over
+    the additional data and over the ciphertext (`gHashBlocks` with its 8-block threshold + zero-padded
+    remainder), then `gHashFinish`, the mask E(J0) and the truncation. -/
+def sealGlue (E : Bytes → Bytes) (t : Nat) (nonce pt aad : Bytes) : Bytes :=
+  let hp := hPowers (E (List.replicate 16 0))
+  let j0 := calculateJ0 hp nonce
+  let tmask := E (natToBlock j0)
+  let c := (cryptoBlocks E hp false j0 0 pt).1
+  let y := ghUpdate hp 0 aad
+  let y := ghUpdate hp y c
   c ++ finishTag hp y tmask aad.length pt.length t
 
 /-- `constantTimeCompare` (amd64: both operands are `tagSize` bytes by construction; arm64:
